@@ -10,7 +10,7 @@ Import ListNotations.
 Lemma exec_base_pnft_frame e c m c' a :
   exec_base e c m = Ok (c', a) -> (forall pm, m <> BPnft pm) -> c_pnft c' = c_pnft c.
 Proof.
-  intros H Hn. destruct m as [am|dm|pm|f t amt|g r u ex|g r u]; simpl in H.
+  intros H Hn. destruct m as [am|dm|pm|f t amt|f t amt et|g r u ex|g r u]; simpl in H.
   - destruct am as [t d o|t mo d w o|t w o|t k v w o f]; simpl in H;
       match type of H with bind ?x _ = _ => destruct x; simpl in H; try discriminate end;
       inversion H; reflexivity.
@@ -20,7 +20,11 @@ Proof.
   - exfalso. apply (Hn pm). reflexivity.
   - destruct (e_unbech e f), (e_unbech e t); try discriminate.
     destruct (mem_bytes _ _); try discriminate.
-    destruct (send _ _ _ _); try discriminate. inversion H; reflexivity.
+    destruct (send _ _ _ _ _); try discriminate. inversion H; reflexivity.
+  - destruct (e_unbech e f), (e_unbech e t); try discriminate.
+    destruct (mem_bytes _ _); try discriminate.
+    destruct (account_exists _ _); try discriminate.
+    destruct (send _ _ _ _ _); try discriminate. inversion H; reflexivity.
   - destruct (e_unbech e g), (e_unbech e r); try discriminate.
     destruct (match ex with Some t => _ | None => false end); try discriminate. inversion H; reflexivity.
   - destruct (e_unbech e g), (e_unbech e r); try discriminate.
@@ -32,7 +36,7 @@ Proof.
   unfold ante. destruct (required_signers e t) as [[|p rest]| |]; try discriminate.
   destruct (list_bytes_eqb _ _); try discriminate.
   destruct (tx_fee t) as [|f fs]; [intros [= <-]; auto|].
-  destruct (send _ _ _ _); try discriminate. intros [= <-]. auto.
+  destruct (send _ _ _ _ _); try discriminate. intros [= <-]. auto.
 Qed.
 
 (** the result of a PNFT message: the new store *)
@@ -76,12 +80,12 @@ Proof.
   - intros c0 H. exact H.
   - intros a b0 c0 H1 H2 Ha. apply H2. apply H1. exact Ha.
   - intros e c0 m c' acks He Hvb Hx Ha.
-    destruct m as [am|dm|pm|f t amt|g r u ex|g r u];
+    destruct m as [am|dm|pm|f t amt|f t amt et|g r u ex|g r u];
       try (rewrite (exec_base_pnft_frame e c0 _ c' acks Hx); [exact Ha | intros pm0; discriminate]).
     simpl in Hvb, Hx. eapply exec_pnft_inv; eauto.
   - intros e c0 t c' _ Hx Ha. rewrite (ante_pnft_frame e c0 t c' Hx). exact Ha.
   - intros e c0 _ Ha. exact Ha.
-  - intros e c0 _ Ha. exact Ha.
+  - intros e c0 _ Ha. destruct (end_block_custom e c0) as [_ [_ [E _]]]. rewrite E. exact Ha.
   - intros t. exact Ho.
 Qed.
 
